@@ -31,7 +31,7 @@ def fail(ident, what, witness, wclass="value"):
 TOK = ["{{a}}", "{{a|x}}", "{{{1}}}", "[[L]]", "[http://x y]", "{|", "|-", "|}", "* ", "# ", ": ", "==h==", "''", "'''",
        "<b>", "</b>", "<nowiki/>", "<nowiki />", "<!--", "-->", "__TOC__", "~~~~", "|", "=", "!", "{{#if:x|y}}", " ", "t",
        "\n", "<pre>", "{{", "}}", "[[", "]]", "<ref>", "{{PAGENAME}}", "_", "a_b", "&#95;", "&amp;", "&", ";", "#", "\"", "-{", "}-",
-       "-{zh-hans:x}-", "~", "~~~", "a~b"]
+       "-{zh-hans:x}-", "~", "~~~", "a~b", "<nowiki>", "<nowiki>[[b]]"]
 INV = {v: k for k, v in _nowiki_map.items()}
 
 
@@ -168,6 +168,23 @@ for ci, c in enumerate(contents):
 samples.append({"content": contents[len(contents) // 2]})
 
 ctx = ctx_en
+# parse: an argument / link text with a nested construct, then a line break, then a nowiki at the start of the line:
+# the nowiki text stays a plain text child of that argument (no preformatted / list node, nothing torn out)
+for ptext in ("{{id|[[x]]\n <nowiki>c d</nowiki>}}", "* {{id|{{a}}\n<nowiki>*c</nowiki> e}}", "[[T|{{a}} y\n <nowiki>z</nowiki>]]",
+              "{{id|{{{1|}}}\n <nowiki>{{a}}</nowiki>|k=[[x]]\n <nowiki>w</nowiki>}}"):
+    ctx.start_page("Tt")
+    evaluations += 1
+    try:
+        with quiet_stdout():
+            root = ctx.parse(ptext)
+    except Exception as ex:
+        fail("c15:parse#no-exception", f"{type(ex).__name__}: {ex}", {"text": ptext}, type(ex).__name__)
+        continue
+    ks = kinds_of(root, [])
+    if NodeKind.PREFORMATTED in ks or len([k for k in ks if k in (NodeKind.TEMPLATE, NodeKind.LINK)]) < 1 or \
+            not isinstance(root.children[-1], WikiNode):
+        fail("c15:parse#nowiki-in-an-argument-after-a-nested-construct-stays-in-the-argument",
+             f"{ptext!r}: kinds {ks}, last child {str(root.children[-1])[:40]!r}", {"text": ptext}, "torn-out")
 # a template whose BODY contains a nowiki pair, transcluded on successive pages of one context (with other nowiki pairs
 # on the page, so that cookie numbers differ from page to page)
 ctx.add_page("Template:nwt", 10, "N<nowiki>{{a}} [[x]]</nowiki>M")
